@@ -287,7 +287,7 @@ def _main(prop, args, seed, t0):
     eff_tier = "thorough" if broken else tier  # widen the search when a proof broke
     drift_changed, drift_missing = [], []
     anchors = getattr(mod, "ANCHORS", None)
-    if anchors:
+    if anchors and os.environ.get("VERIF_NO_DRIFT") != "1":
         from harness import drift
         drift_changed, drift_missing = drift.drifted(prop, anchors)
         if drift_changed or drift_missing:
